@@ -1650,10 +1650,10 @@ func (r *stack) lock() {
 	if r.canMutex() {
 		if mutex, found := r.mutex(); found {
 			sc, _ := r.config()
-			_now := now()
-			sc.ldr = &_now
 			verifPoint(`lock.want`, r)
 			mutex.Lock()
+			_now := now()
+			sc.ldr = &_now
 			verifPoint(`lock.held`, r)
 		}
 	}
@@ -1668,9 +1668,9 @@ func (r *stack) unlock() {
 	if r.canMutex() {
 		if mutex, found := r.mutex(); found {
 			verifPoint(`lock.release`, r)
-			mutex.Unlock()
 			sc, _ := r.config()
 			sc.ldr = nil
+			mutex.Unlock()
 			verifPoint(`lock.released`, r)
 		}
 	}
